@@ -155,6 +155,7 @@ def run(ctx):
         _loops(ctx, cfg, prog, mod)
         _rec(ctx, cfg, prog, mod)
         _panic(ctx, cfg, prog, mod)
+        _arith(ctx, cfg, prog, mod)
         _callban(ctx, cfg, prog, mod)
         _finite(ctx, cfg, prog, mod)
         _assertgate(ctx, cfg, prog, mod)
@@ -442,6 +443,120 @@ def _panic(ctx, cfg, prog, mod):
             ctx.ob('PANIC', root, cfg, True, '%d site(s) <= %d classified: %s' % (len(lst), ent[0], ent[1]), site=site)
     if cfg == ctx.cfgs[0]:
         ctx.sample({'rule': 'PANIC', 'functions_with_sites': len(sites), 'sites': total})
+
+
+# ------------------------------------------------------------------------------------------ ARITH
+# Integer arithmetic that panics in builds with overflow checks (the default dev/test profile) and wraps
+# silently elsewhere: MIR `Assert` terminators of kind Overflow(*) / OverflowNeg / DivisionByZero /
+# RemainderByZero.  Counted per function (closures with their parent), excluding (i) operations whose
+# operands are all constants or const generics, (ii) `usize` additions / multiplications (index and length
+# arithmetic, bounded by what is allocated; not decided).  `usize` subtractions stay in (`len - 1`).
+# value: (classified count, reason)
+_SHIFT = 'shift / mask by a bit count that the function bounds first (bits <= 31, D * bits <= 128) or by a literal'
+_SMALLCOUNT = 'u8 multiplicity counter of cells around one facet / ridge / edge; bounded by the (small) degree of that face'
+_DMINUS = 'D - 1 / D + 2 - k on the const dimension and a flip arity validated just above (k <= D + 1)'
+_LATTICE = 'lattice offsets in {-1, 0, 1} and digits in {0, 1, 2}; i16 widening before the +128 bias'
+_COMB = 'combination enumeration on indices with k <= n checked on entry'
+ARITH_TABLE = {
+    'core::algorithms::flips::BistellarFlipKind::inverse': (1, _DMINUS),
+    'core::algorithms::flips::apply_bistellar_flip_with_k': (1, _DMINUS),
+    'core::algorithms::flips::build_flip_topology_index': (1, _SMALLCOUNT),
+    'core::algorithms::flips::build_k3_flip_context': (1, _SMALLCOUNT + ' (3 cells around the ridge)'),
+    'core::algorithms::flips::build_k3_flip_context_from_triangle': (2, _DMINUS),
+    'core::algorithms::incremental_insertion::find_visible_boundary_facets': (1, 'len() - 1 of a vector that was just filled with D + 1 points'),
+    'core::algorithms::locate::extract_cavity_boundary': (1, 'len() - 1 behind `len() >= 2`'),
+    'core::algorithms::locate::is_point_outside_facet': (1, 'product of two orientation signs in {-1, 0, 1}'),
+    'core::builder::DelaunayTriangulationBuilder::build_periodic': (21, _LATTICE + '; jitter arithmetic on values reduced modulo a constant span (|x| < 2^52); '
+                                                                    'facet multiplicities (u8) of a candidate complex; Euler count difference of cell counts'),
+    'core::builder::search_closed_2d_selection::dfs': (8, _SMALLCOUNT + '; decrements mirror the increments on backtracking'),
+    'core::delaunay_triangulation::morton_code': (2, _SHIFT),
+    'core::delaunay_triangulation::order_vertices_morton': (2, _SHIFT),
+    'core::triangulation::Triangulation::build_adjacency_index': (2, 'division by the literal 2; telemetry counter + 1'),
+    'core::triangulation::Triangulation::collect_edges': (1, 'division by the literal 2'),
+    'core::triangulation::Triangulation::insert_transactional': (2, 'remainder by the literal 2; shift by the literal 32'),
+    'core::triangulation_data_structure::Tds::facet_vertex_identities_in_cell_order': (1, _LATTICE),
+    'core::util::facet_keys::periodic_facet_key_from_lifted_vertices': (2, _LATTICE),
+    'core::util::facet_utils::generate_combinations': (3, _COMB),
+    'core::util::hashing::stable_hash_u64_slice': (3, _SHIFT),
+    'core::util::hilbert::hilbert_index': (1, _SHIFT),
+    'core::util::hilbert::hilbert_index_from_quantized': (9, _SHIFT),
+    'core::util::hilbert::hilbert_indices_prequantized': (1, _SHIFT),
+    'core::util::hilbert::hilbert_quantize': (2, _SHIFT),
+    'core::util::hilbert::hilbert_quantize_unchecked': (2, _SHIFT),
+    'core::util::hilbert::hilbert_sort_by_stable': (1, _SHIFT),
+    'core::util::hilbert::hilbert_sort_by_unstable': (1, _SHIFT),
+    'core::util::hilbert::hilbert_sorted_indices': (1, _SHIFT),
+    'core::util::jaccard::compute_set_metrics': (1, '|A| + |B| - |A and B| with the intersection counted from A'),
+    'geometry::matrix::adaptive_tolerance': (2, 'ncols - 1 of a matrix with at least one column'),
+    'geometry::quality::compute_scale_aware_epsilon': (1, 'edge counter over the D(D+1)/2 edges of one simplex'),
+    'geometry::util::circumsphere::circumcenter': (1, 'len() - 1 behind the is_empty() refusal'),
+    'geometry::util::conversions::safe_usize_to_scalar': (2, _SHIFT),
+    'geometry::util::point_generation::format_bytes': (1, 'UNITS.len() - 1 on a non-empty constant table'),
+    'geometry::util::point_generation::generate_grid_points': (1, 'points_per_dim - 1 in an error message behind points_per_dim > 0'),
+    'geometry::util::triangulation_generation::generate_random_triangulation_with_topology_guarantee': (1, 'division by the literal 6'),
+    'geometry::util::triangulation_generation::random_triangulation_try_with_vertices': (1, 'attempt counter (< retry limit) + 1'),
+    'topology::characteristics::euler::euler_characteristic': (2, 'remainder by the literal 2; sign * count with count <= isize::MAX'),
+    'topology::characteristics::euler::expected_chi_for': (1, '1 + (+-1)'),
+    'topology::characteristics::euler::insert_simplices_of_size': (3, _COMB),
+    'topology::manifold::build_ridge_star_map': (1, 'division by the literal 2'),
+    'topology::manifold::build_ridge_star_map_for_cells': (1, 'division by the literal 2'),
+}
+
+
+def _arith_sites(prog):
+    out = defaultdict(list)
+    for q, b in prog.bodies.items():
+        if '::tests::' in q or not b.file.startswith('src/'):
+            continue
+        for blk in b.blocks:
+            t = blk.term
+            if t.k != 'assert':
+                continue
+            m = t.raw.get('m') or ''
+            if not (m.startswith('Overflow') or m in ('DivisionByZero', 'RemainderByZero')):
+                continue
+            mo = t.raw.get('mo', [])
+            kinds = [o[0] for o in mo]
+            if kinds and all(k == 'k' for k in kinds):
+                continue
+            ty = None
+            for o in mo:
+                if o[0] == 'k':
+                    ty = ty or o[1].get('ty')
+                elif not o[1][1]:
+                    ty = b.locals[o[1][0]]
+            if ty == 'usize' and m in ('Overflow(Add)', 'Overflow(Mul)'):
+                continue
+            out[b.root or q].append((m, ty, t.line, b.file))
+    return out
+
+
+def _arith(ctx, cfg, prog, mod):
+    ctx.rule('ARITH', 'checked integer arithmetic (overflow / division asserts) per function matches the classified table')
+    sites = _arith_sites(prog)
+    total = sum(len(v) for v in sites.values())
+    if total == 0:
+        ctx.ob('ARITH', 'profile', cfg, True, 'no overflow checks are compiled in this configuration (arithmetic wraps): nothing to '
+                                              'classify here; the dev fact base carries the rule', nontrivial=False)
+        return
+    has_overflow_checks = any(m.startswith('Overflow') for lst in sites.values() for m, _, _, _ in lst)
+    ctx.floor('checked arithmetic sites enumerated (%s)' % ('overflow checks on' if has_overflow_checks else 'division checks only'),
+              60 if has_overflow_checks else 8, total, cfg)
+    for root, lst in sorted(sites.items()):
+        ent = ARITH_TABLE.get(root)
+        site = '%s:%d' % (lst[0][3], lst[0][2])
+        kinds = sorted({'%s %s' % (m, ty) for m, ty, _, _ in lst})
+        if ent is None:
+            ctx.ob('ARITH', root, cfg, False,
+                   '%d checked arithmetic site(s) (%s at lines %s) in a function with no table entry: panics in builds with '
+                   'overflow checks (dev / test profile), wraps silently otherwise' % (len(lst), kinds, [l for _, _, l, _ in lst][:6]),
+                   site=site)
+        elif len(lst) > ent[0]:
+            ctx.ob('ARITH', root, cfg, False,
+                   '%d checked arithmetic sites (%s), table classifies %d (%s): %d new unclassified site(s); lines %s' % (
+                       len(lst), kinds, ent[0], ent[1], len(lst) - ent[0], [l for _, _, l, _ in lst][:10]), site=site)
+        else:
+            ctx.ob('ARITH', root, cfg, True, '%d site(s) <= %d classified: %s' % (len(lst), ent[0], ent[1]), site=site)
 
 
 # ------------------------------------------------------------------------------------------ CALLBAN
